@@ -14,7 +14,13 @@ import (
 	"time"
 )
 
-const Root = "/verif"
+// Root is the framework directory (overridable for development in a scratch checkout).
+var Root = func() string {
+	if r := os.Getenv("VERIF_ROOT"); r != "" {
+		return r
+	}
+	return "/verif"
+}()
 
 // Part is what one sub-check (one binary run) reports; the driver merges parts into the
 // evidence file of a property.
